@@ -81,7 +81,9 @@ def program(ci, c):
     vs = c["vs"]
     dvars = []
 
-    def variants(byref):
+    def variants(byref, fall=False):
+        # the fallible twin writes its member instructions with the fallible names (try_map): the lookup must find them for TryFrom / TryInto
+        mp = "try_map" if fall else "map"
         out = []
         for i, v in enumerate(vs, 1):
             fa = []
@@ -90,13 +92,13 @@ def program(ci, c):
                 tail = ".clone()" if byref else ""
                 if f == "none":
                     # positional target: an explicit index would be the rename item; a by-reference payload field is cloned (README "Enums")
-                    a = f"#[map(~{tail})]" if byref else ""
+                    a = f"#[{mp}(~{tail})]" if byref else ""
                 elif f in ("ren", "swap"):
-                    a = f"#[map({rn}, ~{tail})]" if byref else f"#[map({rn})]"
+                    a = f"#[{mp}({rn}, ~{tail})]" if byref else f"#[{mp}({rn})]"
                 elif f == "expr":
-                    a = f"#[map(tg2({i},{j}, ~))]"
+                    a = f"#[{mp}(tg2({i},{j}, ~))]"
                 elif f in ("renexpr", "swapexpr"):
-                    a = f"#[map({rn}, tg2({i},{j}, ~))]"
+                    a = f"#[{mp}({rn}, tg2({i},{j}, ~))]"
                 else:
                     a = f"#[ghost({{gh2({i},{j})}})]"
                 fa.append(a)
@@ -132,9 +134,9 @@ def program(ci, c):
     DIdef = "#[derive(Clone)] pub enum DI { " + " ".join(vdef(cn, form, fs) + "," for _, cn, form, fs in dvars) + " Gd(usize), Dc, }"
     dfl = " | _ => DI::Dc" if c["dflt"] else ""
     dflf = " | _ => Ok(DI::Dc)" if c["dflt"] else ""
-    ev, evr = " ".join(variants(False)), " ".join(variants(True))
+    ev, evr, evf = " ".join(variants(False)), " ".join(variants(True)), " ".join(variants(False, True))
     E = f"#[derive(Clone, o2o)] #[from_owned(D)] #[owned_into(DI{dfl})] {eghosts}pub enum E {{ {ev} }}"
-    Ef = f"#[derive(Clone, o2o)] #[try_from_owned(D, Er)] #[owned_try_into(DI, Er{dfl})] {eghosts}pub enum Ef {{ {ev} }}"
+    Ef = f"#[derive(Clone, o2o)] #[try_from_owned(D, Er)] #[owned_try_into(DI, Er{dfl})] {eghosts}pub enum Ef {{ {evf} }}"
     Er_ = f"#[derive(Clone, o2o)] #[from_ref(D)] #[ref_into(DI{dfl})] {eghosts}pub enum Er_ {{ {evr} }}"
 
     def dump_e(ty):
